@@ -214,8 +214,36 @@ def build(repo=None):
     # the cell through which the wrapper reaches itself, by ROLE: the free variable that is subscripted with 0 and called -- `<cell>[0]()`
     holder_names = sorted({c.func.value.id for c in ast.walk(wf) if isinstance(c, ast.Call) and isinstance(c.func, ast.Subscript) and isinstance(c.func.value, ast.Name)
                            and isinstance(c.func.slice, ast.Constant) and c.func.slice.value == 0})
+    # ... or a plain closure variable that is called -- `<cell>()` -- and is bound to weakref.ref(<the wrapper>) right after the wrapper's definition
+    wf_locals = {n.id for n in ast.walk(wf) if isinstance(n, ast.Name) and isinstance(n.ctx, ast.Store)} | {a.arg for a in ast.walk(wf) if isinstance(a, ast.arg)}
+    encl = next((lst for n in ast.walk(jt) for lst in (getattr(n, "body", None), getattr(n, "orelse", None), getattr(n, "finalbody", None)) if isinstance(lst, list) and wf in lst), None)
+    if encl is None:
+        raise Unsupported("new-style wrapped_fn: enclosing statement list not found")
+    after = encl[encl.index(wf) + 1:]
+
+    def is_selfref(v):
+        return (isinstance(v, ast.Call) and ast.unparse(v.func) in ("weakref.ref", "ref") and len(v.args) == 1 and not v.keywords
+                and isinstance(v.args[0], ast.Name) and v.args[0].id == wf.name)
+
+    cell_names = sorted({c.func.id for c in ast.walk(wf) if isinstance(c, ast.Call) and isinstance(c.func, ast.Name) and not c.args and not c.keywords and c.func.id not in wf_locals
+                         and any(isinstance(a, ast.Assign) and any(isinstance(t, ast.Name) and t.id == c.func.id for t in a.targets) for a in ast.walk(jt))})
+    cell_ok = True
     for hn in holder_names:
         eng.globals[hn] = Tup([Fn("weakref", model=lambda e, s, a, k, n: [(s, wrapper_self)])])
+        fills = [x for x in ast.walk(jt) if isinstance(x, ast.Call) and isinstance(x.func, ast.Attribute) and isinstance(x.func.value, ast.Name) and x.func.value.id == hn]
+        stores = [x for x in ast.walk(jt) if isinstance(x, ast.Name) and x.id == hn and isinstance(x.ctx, (ast.Store, ast.Del))]
+        init = [a for a in encl[:encl.index(wf)] if isinstance(a, ast.Assign) and len(a.targets) == 1 and isinstance(a.targets[0], ast.Name) and a.targets[0].id == hn and isinstance(a.value, ast.List) and not a.value.elts]
+        fill_stmt = [a for a in after if isinstance(a, ast.Expr) and a.value in fills]
+        cell_ok = cell_ok and (len(stores) == 1 and len(init) == 1 and len(fills) == 1 and len(fill_stmt) == 1 and fills[0].func.attr == "append" and len(fills[0].args) == 1 and not fills[0].keywords and is_selfref(fills[0].args[0]))
+    for cn in cell_names:
+        eng.globals[cn] = Fn("weakref", model=lambda e, s, a, k, n: [(s, wrapper_self)])
+        stores = [x for x in ast.walk(jt) if isinstance(x, ast.Name) and x.id == cn and isinstance(x.ctx, (ast.Store, ast.Del))]
+        late = [x for x in stores if x.lineno > wf.end_lineno]
+        bind = [a for a in after if isinstance(a, ast.Assign) and len(a.targets) == 1 and a.targets[0] in late and is_selfref(a.value)]
+        rebound_inside = any(isinstance(x, ast.Nonlocal) and cn in x.names for x in ast.walk(wf))
+        cell_ok = cell_ok and len(late) == 1 and len(bind) == 1 and not rebound_inside
+    obligations.append({"clause": "C19:the-wrapper-reaches-itself-through-a-cell-that-holds-a-weak-reference-to-this-very-wrapper(filled-right-after-its-definition)", "kind": "vc", "pc": [], "path": [],
+                        "goal": z3.BoolVal(bool(cell_ok and (holder_names or cell_names))), "meta": {"cells": z3.StringVal(",".join(holder_names + cell_names))}, "serves": ["C19"], "function": "jaxtyped/<new-style>/wrapped_fn"})
     # getattr(fn, "__no_type_check__", False) on a Fn value: route through an opaque twin
     from ..builtins_model import b_getattr
 
